@@ -357,7 +357,7 @@ def run_roundtrip(case, ctx: Ctx) -> None:
                     if not oj.ok:
                         blamed.append(j)
                         fam_j = fams[j]
-                        if fam_j == "number_ps" and _ps(cols[j][1])[0] == _ps(cols[j][1])[1]:
+                        if fam_j == "number_ps" and path in ("literal", "insert_select", "ctas", "clone") and _ps(cols[j][1])[0] == _ps(cols[j][1])[1]:
                             fam_j = "number_ps:scale=precision"  # every digit behind the point: its own root cause (the engine counts the leading 0)
                         ctx.fail(sig(f"raises|{oj.etype}", fam_j), f"{cols[j][1]} values {[r[j] for r in rows]!r}: {oj}")
                 if not blamed:
